@@ -250,7 +250,9 @@ class Program:
         r = rng.random()
         self.n = rng.randint(1, 10) if r < 0.75 else rng.randint(11, 40)
         if tier == "thorough" and rng.random() < 0.2:
-            self.n = rng.randint(60, 150)  # thorough tier: some very long histories
+            self.n = rng.randint(60, 300)  # thorough tier: some very long histories
+        elif tier != "thorough" and rng.random() < 0.008:
+            self.n = rng.randint(110, 280)  # quick tier: the occasional very long script (more than 100 / 256 steps)
         self.p_fault = rng.choice([0.1, 0.2, 0.35, 0.5])
         self.p_int = rng.choice([0.0, 0.08, 0.15])
         self.evo = self.world["device"] == "evo"
